@@ -170,8 +170,8 @@ theorem server_done_only_by_eom (s s' : H11M.St) (k : EvKey) (h : H11M.stepServe
 theorem h1_crash_mid_response_closes (st : St) (hs : st.lib.server = .sendBody) :
     Out.upClosed ∈ (maybeRecycle st).2 ∧ Out.startNextCycle true ∉ (maybeRecycle st).2 := by
   have h := HC.Props.C06.reuse_iff st
-  have hn : ¬ (st.terminated = false ∧ st.lib.server = .done ∧ st.lib.client = .done ∧ st.wsMode = false) := by
-    intro ⟨_, h2, _⟩; rw [hs] at h2; cases h2
+  have hn : ¬ (st.closed = false ∧ st.terminated = false ∧ st.lib.server = .done ∧ st.lib.client = .done ∧ st.wsMode = false) := by
+    intro ⟨_, _, h2, _⟩; rw [hs] at h2; cases h2
   exact ⟨h.2.mpr hn, fun hc => hn (h.1.mp hc)⟩
 
 /-- the whole step at the protocol level: current HTTP stream in RESPONSE, application ends ⇒ `Closed`, no reuse,
@@ -191,7 +191,7 @@ theorem h1_crash_step (cfg : Cfg) (st : St) (i : Nat) (s : Http.S)
 
 /-- **WebSocket**: ending in the handshake answers 500; ending while connected sends close 1011; both then close the stream -/
 theorem ws_crash_handshake (token : Bytes → Bytes) (ext : Option Bytes) (s : Ws.S) (hst : s.st = .handshake) (hc : s.closed = false) :
-    Ws.appSend token ext s none = (s, Ws.errorResponse 500 ++ [.streamClosed], none) := by      -- one access record (inside errorResponse)
+    Ws.appSend token ext s none = ({ s with st := .httpClosed }, Ws.errorResponse 500 ++ [.streamClosed], none) := by      -- one access record (inside errorResponse); HTTPCLOSED before the 500 is sent (F98)
   simp [Ws.appSend, hst, hc]
 
 theorem ws_crash_connected (token : Bytes → Bytes) (ext : Option Bytes) (s : Ws.S) (hst : s.st = .connected) (hc : s.closed = false)
